@@ -794,6 +794,13 @@ def compiled_block_origins(model):
                         e.func, ast.Attribute) and e.func.attr == 'parse' \
                         and norm(e.func.value) == 'self':
                     return [('parse', None, set())]
+                if isinstance(e, ast.Call) and isinstance(
+                        e.func, ast.Name):
+                    # parse = self.parse; blocks = parse(source)
+                    fd = [d for d in model.local_defs(fi, e.func.id)]
+                    if fd and all(isinstance(d, ast.AST) and
+                                  norm(d) == 'self.parse' for d in fd):
+                        return [('parse', None, set())]
                 cont = key = None
                 if isinstance(e, ast.Subscript):
                     cont, key = e.value, e.slice
